@@ -183,7 +183,110 @@ func genRandom(r *common.Rand, n int, emit func(string), stores []string, cas bo
 				sch = append(sch, [2]int64{0, int64(r.Intn(nt))})
 			}
 		}
+		if r.Intn(3) == 0 {
+			injectFault(r, sch)
+		}
 		emit(tag + mkCase(false, store, cas, ttl, pre, thr, sch))
+	}
+}
+
+// injectFault turns one step of the schedule into a step whose storage call fails.
+func injectFault(r *common.Rand, sch [][2]int64) {
+	var idx []int
+	for i, s := range sch {
+		if s[0] == 0 {
+			idx = append(idx, i)
+		}
+	}
+	if len(idx) > 0 {
+		sch[common.Pick(r, idx)][0] = 2
+	}
+}
+
+// withFaultAt copies the schedule with step p faulted.
+func withFaultAt(sch [][2]int64, p int) [][2]int64 {
+	c := append([][2]int64(nil), sch...)
+	if c[p][0] == 0 {
+		c[p][0] = 2
+	}
+	return c
+}
+
+// ---- single storage fault, exhaustive for small scopes: every fault position x every schedule x
+// the multi-node configurations (each node its own hybrid store over one shared tier; the fault is a
+// transient error of the shared tier on SetNX / Set / Delete / Exists)
+func genFaultExhaustive(emit func(string)) {
+	stores := []string{"hyr", "hyb", "dbl", "red", "mem"}
+	// node ids: two/three nodes claim, renew, release
+	nodeProgs := [][]thrSpec{
+		{{0, []string{"g 9 0", "w", "o"}}, {1, []string{"g 9 0", "w"}}},
+		{{0, []string{"g 9 0"}}, {1, []string{"g 9 0", "o", "g 9 0"}}},
+		{{0, []string{"g 9 0", "o"}}, {1, []string{"g 9 0"}}, {2, []string{"g 9 0"}}},
+	}
+	for pi, progs := range nodeProgs {
+		nt := len(progs)
+		L := 5
+		if nt == 3 {
+			L = 4
+		}
+		total := 1
+		for i := 0; i < L; i++ {
+			total *= nt
+		}
+		for m := 0; m < total; m++ {
+			var sch [][2]int64
+			x := m
+			for j := 0; j < L; j++ {
+				sch = append(sch, [2]int64{0, int64(x % nt)})
+				x /= nt
+			}
+			for p := 0; p < L; p++ {
+				store := stores[(m+p+pi)%2] // hyr / hyb: the multi-node hybrid configurations
+				if (m+p)%7 == 0 {
+					store = stores[2+(m+p+pi)%3]
+				}
+				var pre []preEnt
+				if m%3 == 1 {
+					pre = []preEnt{{nodeKind, 1, 0}}
+				}
+				emit(mkCase(false, store, true, defTTL, pre, progs, withFaultAt(sch, p)))
+			}
+		}
+	}
+	// generated ids: two instances, 2 ids, every pre-existing subset, every schedule of length 4
+	pats := [][]uint64{{1}, {1, 2}, {2, 1}}
+	n := 0
+	for preMask := 0; preMask < 4; preMask++ {
+		for _, p0 := range pats {
+			for _, p1 := range pats {
+				for m := 0; m < 16; m++ {
+					var sch [][2]int64
+					for j := 0; j < 4; j++ {
+						sch = append(sch, [2]int64{0, int64(m >> j & 1)})
+					}
+					for p := 0; p < 4; p++ {
+						n++
+						kind := n % 4
+						var pre []preEnt
+						for i := 0; i < 2; i++ {
+							if preMask>>i&1 == 1 {
+								pre = append(pre, preEnt{kind, candID(kind, uint64(i+1)), 0})
+							}
+						}
+						store := stores[n%5]
+						emit(mkCase(false, store, true, defTTL, pre,
+							[]thrSpec{{0, []string{genOp(kind, p0), "o"}}, {1, []string{genOp(kind, p1)}}}, withFaultAt(sch, p)))
+					}
+				}
+			}
+		}
+	}
+	// fallback path, one instance: fault on Exists and on Set
+	for _, pat := range pats {
+		for p := 0; p < 4; p++ {
+			sch := [][2]int64{{0, 0}, {0, 0}, {0, 0}, {0, 0}}
+			emit(mkCase(false, "dbl", false, 1000, []preEnt{{2, 2, 0}}, []thrSpec{{0, []string{genOp(2, pat), "o"}}}, withFaultAt(sch, p)))
+		}
 	}
 }
 
@@ -321,6 +424,9 @@ func genNode(r *common.Rand, n int, emit func(string)) {
 				sch = append(sch, [2]int64{0, int64(r.Intn(nt))})
 			}
 		}
+		if r.Intn(3) == 0 {
+			injectFault(r, sch)
+		}
 		emit(mkCase(false, store, true, defTTL, pre, thr, sch))
 	}
 	// the heartbeat discipline: claim, then renew every 30 s for a long time while another node keeps trying
@@ -396,6 +502,7 @@ func generate(r *common.Rand, tier string, emit func(string)) {
 		genExhaustive3(emit)
 	}
 	genExhaustive(emit)
+	genFaultExhaustive(emit)
 	real := []string{"dbl", "dbl", "dbl", "mem", "hyb", "red", "hyr"}
 	genRandom(r.Fork(), 900*scale, emit, real, true, 4, false, "")
 	genExhaustion(r.Fork(), 16*scale, emit)
